@@ -55,3 +55,20 @@ UNITS.append(U(name='htp_connp_RES_IDLE', props=['C04', 'C09', 'C01'], kind='con
                min_obl=100, timeout=(600, 1800),
                sub='pairing: a starting response is attached to the transaction at position out_next_tx_index (the list is in request arrival order) and the index advances by one; with no request at that position the response gets a NEW transaction appended last, never an existing one; no data => nothing changes',
                assumes=A + ['transaction list capacity <= LCAP; real htp_list_array_get body included', 'htp_connp_tx_create, htp_tx_state_response_start, htp_tx_state_request_complete, htp_uri_alloc, bstr_dup_c replaced by contracts']))
+
+UNITS.append(U(name='htp_connp_RES_BODY_CHUNKED_LENGTH', props=['C06', 'C09', 'C01'], kind='contract', src=['htp_response.c'], enforce='htp_connp_RES_BODY_CHUNKED_LENGTH',
+               replace=['htp_connp_res_consolidate_data', 'htp_connp_res_clear_buffer', 'htp_parse_chunked_length/contract_site_htp_parse_chunked_length', 'htp_log'],
+               contracts_inc=INC, harness=H % 'htp_connp_RES_BODY_CHUNKED_LENGTH', defs=D, min_obl=50, timeout=(600, 1800),
+               loops={'htp_response.c': {
+                   'htp_connp_RES_BODY_CHUNKED_LENGTH': {'count': 1, 0: dict(
+                       assigns='g_consol_n, g_consol_len, g_pcl_value, connp->out_next_byte, connp->out_current_read_offset, connp->out_stream_offset, connp->out_current_consume_offset, '
+                               'connp->out_buf, connp->out_buf_size, connp->out_chunked_length, connp->out_tx->response_message_len',
+                       inv=['CUR_OUT_CURSOR(connp)', 'connp->out_current_len == __CPROVER_loop_entry(connp->out_current_len)',
+                            'connp->out_tx->response_message_len >= __CPROVER_loop_entry(connp->out_tx->response_message_len)',
+                            'connp->out_tx->response_message_len <= OFFMAX + (int64_t) LINE_CAP * (connp->out_current_read_offset + 1)',
+                            'connp->out_stream_offset <= OFFMAX + connp->out_current_read_offset',
+                            'connp->out_chunked_length == __CPROVER_loop_entry(connp->out_chunked_length) || connp->out_chunked_length == -1004', 'g_clear_n == 0'],
+                       dec='connp->out_current_len - connp->out_current_read_offset')},
+                   'data_probe_chunk_length': {'count': 1, 0: dict(assigns='i', inv=['i <= len'], dec='len - i')}}},
+               sub='response chunk-size line: result lattice; DATA_BUFFER only with the chunk exhausted; >0 => chunk data with that many bytes owed, 0 => trailers, invalid => close-delimited identity body with the buffer kept; size never above INT32_MAX; terminates',
+               assumes=A + ['consolidate/clear_buffer/parse_chunked_length/htp_log replaced by contracts']))
